@@ -12,6 +12,7 @@ import OmplModel.Props.C14O
 import OmplModel.Props.C14W
 import OmplModel.Props.C14V
 import OmplModel.Props.C14VO
+import OmplModel.Props.C14A
 /-!
 # C14 — Dubins curves: the reported path is a shortest candidate, reaches the goal, and `interpolate` drives it
 
